@@ -1,6 +1,17 @@
+mod c30;
+mod c31;
+mod c32;
+mod c44;
+mod corpus;
+mod obs;
+
 fn main() {
     let ctx = mc_core::Ctx::from_args();
     match ctx.prop.as_str() {
-        p => mc_core::report::machinery_failure(&format!("mc-traverse does not serve {p} yet")),
+        "C30" => c30::run(ctx),
+        "C31" => c31::run(ctx),
+        "C32" => c32::run(ctx),
+        "C44" => c44::run(ctx),
+        p => mc_core::report::machinery_failure(&format!("mc-traverse does not serve {p}")),
     }
 }
